@@ -63,7 +63,11 @@ type Ctx struct {
 	Rng  *rand.Rand
 	Ops  []*Op
 
+	Kin     *kinSO // second opinion (may be nil)
+	SpecRaw []byte
+
 	mu      sync.Mutex
+	notes   []string
 	out     *os.File
 	stats   map[string]int
 	nviol   map[string]int
@@ -128,6 +132,15 @@ func (c *Ctx) Distinct(k string) {
 	c.mu.Unlock()
 }
 
+// Note keeps up to 6 free-text notes per run (second-opinion disagreements).
+func (c *Ctx) Note(s string) {
+	c.mu.Lock()
+	if len(c.notes) < 6 {
+		c.notes = append(c.notes, s)
+	}
+	c.mu.Unlock()
+}
+
 func (c *Ctx) Sample(v any) {
 	c.mu.Lock()
 	c.samples++
@@ -176,6 +189,12 @@ func Main(t *testing.T, reg Registry) {
 		return
 	}
 	c.Base = c.Doc.BasePath(cs.BasePath)
+	c.SpecRaw = spec
+	if k, kerr := newKin(spec); kerr == nil {
+		c.Kin = k
+	} else {
+		c.Stat("kin_unavailable", 1)
+	}
 	if err := c.discover(); err != nil {
 		c.emit(event{"t": "fatal", "msg": "discover: " + err.Error()})
 		return
@@ -201,7 +220,7 @@ func Main(t *testing.T, reg Registry) {
 	stats := c.stats
 	nv := c.nviol
 	c.mu.Unlock()
-	c.emit(event{"t": "END", "case": cs.ID, "stats": stats, "viol_counts": nv})
+	c.emit(event{"t": "END", "case": cs.ID, "stats": stats, "viol_counts": nv, "notes": c.notes})
 }
 
 func firstLine(s string) string {
@@ -310,7 +329,8 @@ func (c *Ctx) NewAPI(mk func(op *Op) func(ctx context.Context, req reflect.Value
 			if inner != nil {
 				out = inner(args[0].Interface().(context.Context), args[1])
 			}
-			if !out.IsValid() {
+			if !out.IsValid() || !out.Type().Implements(op.RespIface) {
+				// (a response prepared for another operation: the request was routed elsewhere)
 				out = c.ZeroResponse(op)
 			}
 			return []reflect.Value{out.Convert(op.RespIface)}
